@@ -142,6 +142,14 @@ domain of every run (`writer-model:*` in the evidence). -/
 theorem C07_file_reads_back (c : Image) (hsep : IHex.Separated c) (hb : ∀ s ∈ c, s.1 + s.2.length ≤ 2 ^ 32) :
     IHex.read (IHex.writeImageText c) = some c := IHex.read_writeImageText c hsep hb
 
+/-- whatever the strict reader returns for a domain's file (any file it accepts) is a canonical image: non-empty blocks, ascending, at least
+one undefined address between them -/
+theorem C07_read_image_canonical (text : String) (c : Image) (h : IHex.read text = some c) : IHex.Separated c := IHex.read_sep text c h
+
+/-- ... and is a fixed point of write-then-read: the writer model's text for it reads back as that same image -/
+theorem C07_file_stable (text : String) (c : Image) (h : IHex.read text = some c) (hb : ∀ s ∈ c, s.1 + s.2.length ≤ 2 ^ 32) :
+    IHex.read (IHex.writeImageText c) = some c := IHex.read_stable text c h hb
+
 /-- a concrete file of two slots in one domain, the second beyond a 64 KiB border (kernel evaluation; hypotheses of the theorem met) -/
 example : IHex.read (IHex.writeImageText [(0x0E1EFFF0, (List.range 40).map UInt8.ofNat), (0x0E1F0400, [1, 2, 3])])
     = some [(0x0E1EFFF0, (List.range 40).map UInt8.ofNat), (0x0E1F0400, [1, 2, 3])] := by decide +kernel
